@@ -51,6 +51,7 @@ type Obligation struct {
 }
 
 func newCtx(mode string, fnName string) *Ctx {
+	termDefs = map[string]string{}
 	return &Ctx{mode: mode, declared: map[string]bool{}, strIDs: map[string]int{}, typeTags: map[string]int{},
 		fieldIDs: map[*types.Var]int{}, fieldByID: map[int]*types.Var{}, heapSorts: map[string]string{}, notes: map[string]bool{}, fnName: fnName}
 }
@@ -111,7 +112,23 @@ func (c *Ctx) name(prefix string, t Term) Term {
 	}
 	v := c.fresh(prefix, t.Sort)
 	c.assume(eq(v, t))
+	termDefs[v.S] = t.S
 	return v
+}
+
+// termDefs: definitions of the constants introduced by Ctx.name (used to see
+// through names when looking for store shapes). Generation is sequential.
+var termDefs = map[string]string{}
+
+func expandDef(s string) string {
+	for i := 0; i < 4; i++ {
+		d, ok := termDefs[s]
+		if !ok {
+			return s
+		}
+		s = d
+	}
+	return s
 }
 
 func (c *Ctx) oblige(kind, label string, reach, goal Term, pos token.Position, props []string) *Obligation {
